@@ -208,6 +208,7 @@ def make_call(params, part, nparts):
         assume((c_conf * len(C14.CUSTOM) + c_cust) % nparts == part)
         n = pick(nhooks, NH + 1)
         hooks = [pick(x, len(C14.HOOK)) for x in (h0, h1)[:n]]
+        assume(all(k < 4 for k in hooks) or c_conf in (0, 1))
         prog = [c_conf, pick(provided, 2), hooks, c_cust, pick(alt, 3), pick(entry, 2)]
         assume(not (prog[5] == 1 and prog[4] != 0))
         reached((c_conf, prog[1], tuple(hooks), c_cust, prog[4], prog[5]), dict(family='call', program=repr(prog)))
